@@ -789,8 +789,17 @@ def r6_recursion(ctx):
                   "append" % sorted(set(detail)), "%s:%d" % (fn["file"], fn["line"]))
 
 
+def r7_per_slot_state(ctx):
+    """a builtin's result depends on the BYTES of its argument, not on which heap slot holds them: any per-slot state of the executor (counts, flags,
+    memoised results) is reset when a reclaimed slot is reused — shared with R-C06-2"""
+    from rules import c06
+    ctx.rule("R-C12-7", "identity independence: every executor array that grows with a fresh heap slot is rewritten when a reclaimed slot is reused (a memoised "
+                        "per-slot result, e.g. a hash, must not survive into the slot's next occupant) — shared with R-C06-2")
+    c06.per_slot_arrays_reset_on_reuse(ctx, "R-C12-7")
+
+
 def run(ctx):
-    ctx.run_rules([r1_sinks, r3_size_limit, r4_representation_independence, r5_rope_shape, r6_recursion])
+    ctx.run_rules([r1_sinks, r3_size_limit, r4_representation_independence, r5_rope_shape, r6_recursion, r7_per_slot_state])
     ctx.note("NOT decided: agreement of results with a reference model (value level), e.g. the 64-bit field read across 9 bytes (observation F4) or the "
              "contents produced by rope operations")
     return (
